@@ -415,4 +415,6 @@ def run(ck):
     ck.floor("PAIR/handover-after-suspension", n, 20)
     mode_total(ck, P)
     buf_error_shape(ck, P)
+    from . import c08
+    c08.checksum_update_guard(ck, P)
     ck.assumptions += ["rustc MIR", "sibling exception table (rules/props/c04.py) confirmed by reading", "host target; K1"]
